@@ -19,6 +19,8 @@ RULE = ("plan = left list + right list (0..7 items each quick / 0..15 thorough; 
 CASES = {"quick": 3000, "thorough": 16000}
 
 KV = {"i": [None, 0, 1, 2, 0, 1, -1, -2], "s": [None, "x", "y"],
+      "n": [None, 1, True, 1.0, 0, False, 2, 2.0],          # equal keys of different types: they match, and every item keeps its own
+
       "tu": [None, [2019, 1], [2019, 2], [2020, 1]]}      # tuple-valued keys (a (year, month) period): lists in the plan, tuples in the items      # hash(-1) == hash(-2) in CPython
 
 
@@ -26,7 +28,7 @@ KV = {"i": [None, 0, 1, 2, 0, 1, -1, -2], "s": [None, "x", "y"],
 def _plan(draw, max_items):
     op = draw(st.sampled_from(["left", "left", "inner", "semi", "anti", "full", "full", "aggregate", "aggregate"]))
     nk = draw(st.sampled_from([1, 1, 2]))
-    kinds = [draw(st.sampled_from(["i", "s", "i", "s", "tu"])) for _ in range(nk)]
+    kinds = [draw(st.sampled_from(["i", "s", "i", "s", "tu"] + ["n"] * (op != "aggregate"))) for _ in range(nk)]
     by = []
     # now and then the keys are named like attributes every dict has (a key is an entry, not an attribute)
     attrnames = draw(st.integers(0, 5)) == 0
@@ -34,6 +36,10 @@ def _plan(draw, max_items):
         ln = ["items", "keys"][j] if attrnames else f"k{j}"
         rn = ln if (op == "aggregate" or draw(st.integers(0, 2))) else (["values", "copy"][j] if attrnames else f"r{j}")
         by.append([ln, rn])
+    if nk == 2 and op in ("left", "inner", "semi", "anti") and draw(st.integers(0, 5)) == 0:
+        # one left key compared with two right keys: both pairs must hold
+        kinds[1] = kinds[0]
+        by = [[by[0][0], "r0"], [by[0][0], "r1"]]
     size = st.one_of(st.sampled_from([0, 1]), st.integers(0, max_items))
     nl, nr = draw(size), draw(size)
     left, right = [], []
@@ -95,6 +101,10 @@ def _first_match(plan):
 
 
 def _eq(a, b):
+    return (a is None) == (b is None) and a == b          # key equality is Python equality: 1, 1.0 and True are one key
+
+
+def _same(a, b):
     return type(a) is type(b) and a == b
 
 
@@ -187,6 +197,11 @@ def _check_join(plan, L, R, ctx, phase=""):
         raise Violation(f"{op}_join changed its right-hand argument")
     if any(j is not None for j in match):
         ctx.cls("has_match")
+    if any(j is not None and any(type(plan["left"][i][a]) is not type(plan["right"][j][b]) for a, b in plan["by"])
+           for i, j in enumerate(match)):
+        ctx.cls("match_between_equal_keys_of_different_types")
+    if len({a for a, _ in plan["by"]}) < len(plan["by"]):
+        ctx.cls("one_left_key_paired_with_two_right_keys")
     if not plan["left"] or not plan["right"]:
         ctx.cls("empty_operand")
 
@@ -235,7 +250,7 @@ def _check_full(plan, out):
                 srcs.append(L[li][k])
             if ri is not None and k in R[ri]:
                 srcs.append(R[ri][k])
-            if not any(_eq(v, s) for s in srcs):
+            if not any(_same(v, s) for s in srcs):
                 raise Violation("full_join: entry not traceable to a source item", key=k, value=v, item=item)
         if li is not None:
             # a merged item may carry the (equal) key values under either side's key names
